@@ -9,6 +9,7 @@ ASSUMPTIONS = [
     "bare tree fed the model's tree calls in the model's order)",
     "LevelDB durability and crashes inside SaveVersion are outside the model (tm-db MemDB is used by the harness; "
     "Reopen = a new ChainState over the same database)",
+    "a panic of the code under test in any operation is recorded as an observation (the model never panics except CommitTx without a session)",
     "stored values are non-empty byte strings (the generators never write an empty value)",
 ]
 
@@ -46,14 +47,27 @@ def case_payload(c, step):
 
 def judge(ctx, rep, cases, mm, sv):
     found_input = False
+    unknown = []
     for (ci, step, cl) in sv:
         if cl in TRIGGERS and ctx.known_finding(TRIGGERS[cl], ""):
             continue
+        unknown.append((ci, step, cl))
+    # report the shortest failing sequence of every kind of failing step (operation, what the store answered), at most 4
+    best = {}
+    for (ci, step, cl) in unknown:
+        c = cases[ci]
+        kind = (c["Ops"][step]["Kind"], c["Obs"][step]["Kind"])
+        if kind not in best or len(c["Ops"]) < len(cases[best[kind][0]]["Ops"]):
+            best[kind] = (ci, step, cl)
+    for kind in sorted(best, key=lambda k: len(cases[best[k][0]]["Ops"]))[:4]:
+        ci, step, cl = best[kind]
         found_input = True
         ctx.violation("spec_%d" % ci, dict(case_payload(cases[ci], step), kind="store-answer-differs-from-transactional-map",
+                      failing_operation=cases[ci]["Ops"][step], store_answered=cases[ci]["Obs"][step],
+                      what="at step first_bad_step the real store answers differently from the transactional versioned map "
+                           "(StoreSpec.v under the rotation setting rot); getprev n = GetPrevious(n) = versioned read of (commits so far - n)",
+                      disagreeing_cases_in_this_run=len(unknown), family=cases[ci].get("Family"),
                       cls=cl, how="./check replay <this file>"))
-        if ctx.violations >= 3:
-            break
     # shortest failing sequences first: the replay should be as small as the run found
     twin = sorted(rep.get("twin_failures") or [], key=lambda tf: (len(tf["ops"]), tf["case"]))
     for tf in twin[:3]:
@@ -107,7 +121,11 @@ def run(ctx):
                 "session touching none/one/two of them, set or delete, discarded or replaced = 666 schedules); seeded block-shaped "
                 "histories (per block 3..6 keys not yet in the tree plus old ones, 2..5 sessions writing random sub-permutations, "
                 "50% committed / 32% discarded / 18% left open, reads interleaved, 2..8 blocks, no gas / huge limit, reopen / fresh "
-                "between blocks); seeded uniform random sequences (4 gas modes, 6 rotation settings); distinct = distinct operation sequences",
+                "between blocks); the version sweep (9 rotation settings incl. zero, recent=1, recent=3 and the node default 10/100/10 "
+                "x 0..4 commits, reopen, 0..3 commits x written / empty tree = 360 schedules, EVERY version 0..latest+1 read through "
+                "GetVersioned and GetPrevious before the reopen, after it and after the later commits); seeded version histories "
+                "(3..17 small blocks under the 9 rotation settings, all versions read back completely before and after every reopen "
+                "and at the end, uncommitted writes lost at a restart); seeded uniform random sequences (4 gas modes, 6 rotation settings); distinct = distinct operation sequences",
         "families": rep.get("families"),
         "write_order_distribution": rep.get("write_order_distribution"),
         "write_order_distribution_legend": "measured over all cases with a tree twin: NewLeaves = leaves a commit adds to the tree; "
@@ -145,7 +163,7 @@ def replay(ctx, rp):
         raise Broken("model does not build", log[-2000:])
     tmp = os.path.join(ctx.scratch, "one.json")
     json.dump([{"Rot": rp["rot"], "Ops": rp["ops"]}], open(tmp, "w"))
-    rep, cases, mm, sv, ng = evaluate(ctx, vh, ["-n", "0", "-enum", "0", "-sweep=false", "-corpus", tmp])
+    rep, cases, mm, sv, ng = evaluate(ctx, vh, ["-n", "0", "-enum", "0", "-sweep=false", "-nversions", "0", "-nblocks", "0", "-corpus", tmp])
     print("model_mismatches", mm, "spec_disagreements (case, step, class)", sv, "twin_failures", len(rep.get("twin_failures") or []),
           "tree_twin_failures", len(rep.get("tree_twin_failures") or []))
     for tf in rep.get("twin_failures") or []:
